@@ -152,3 +152,89 @@ def cases(tier, rng=None):
             ('PoloidalAdvection.gridStep_SplinesUnchanged', A + '::PoloidalAdvection.gridStep_SplinesUnchanged', contracts_pol(True))]:
         out.append(dict(label=label, struct=None, key=key, contracts=C))
     return out
+
+
+# ---------------------------------------------------------------------------------------------------------------------
+# Initial distribution function (first sentence of C05): every local entry is init_f at its own GLOBAL coordinates
+# ---------------------------------------------------------------------------------------------------------------------
+FI = 'pygyro/initialisation/initialiser_funcs.py'
+IN = 'pygyro/initialisation/initialiser.py'
+CARGS = 'm, n, eps, CN0, kN0, deltaRN0, rp, {ti}, deltaR, R0'
+
+
+def initf(r, q, z, v, ti='Cti, kti, deltaRti', pre=''):
+    """f_eq(r, v, ..) * (1 + eps * perturbation(r, q, z, ..)) with f_eq and perturbation uninterpreted pure functions."""
+    c = (lambda x: pre + x)
+    t = [c(x.strip()) for x in ti.split(',')]
+    return ('f_eq({r}, {v}, {CN0}, {kN0}, {dRN0}, {rp}, {t0}, {t1}, {t2}) * (1 + {eps} * perturbation({r}, {q}, {z}, {m}, {n}, {rp}, '
+            '{dR}, {R0}))').format(r=r, v=v, q=q, z=z, CN0=c('CN0'), kN0=c('kN0'), dRN0=c('deltaRN0'), rp=c('rp'), t0=t[0], t1=t[1], t2=t[2],
+                                   eps=c('eps'), m=c('m'), n=c('n'), dR=c('deltaR'), R0=c('R0'))
+
+
+def kernel_contract(kind):
+    # (first loop array, second loop array, how the four coordinates are read)
+    coords = {'flux': ('theta', 'zVec', dict(r='r', q='theta[{a}]', z='zVec[{b}]', v='vPar')),
+              'pol': ('theta', 'rVec', dict(r='rVec[{b}]', q='theta[{a}]', z='z', v='vPar')),
+              'vpar': ('theta', 'vPar', dict(r='r', q='theta[{a}]', z='z', v='vPar[{b}]'))}[kind]
+    A1, A2, cd = coords
+
+    def val(a, b):
+        return initf(cd['r'].format(a=a, b=b), cd['q'].format(a=a, b=b), cd['z'].format(a=a, b=b), cd['v'].format(a=a, b=b))
+    done_rows = 'forall(0, i, 0, len(%s), lambda a, b: surface[a, b] == %s)' % (A2, val('a', 'b'))
+    done_row = 'forall(0, j, lambda b: surface[i, b] == %s)' % val('i', 'b')
+    second = {'flux': 'for (j, z) in enumerate(zVec)', 'pol': 'for (j, r) in enumerate(rVec)', 'vpar': 'for (j, v) in enumerate(vPar)'}[kind]
+    return dict(requires=['shape(surface)[0] == len(%s) and shape(surface)[1] == len(%s)' % (A1, A2)], modifies=['surface'],
+                ensures=['forall(0, len(%s), 0, len(%s), lambda a, b: surface[a, b] == %s)' % (A1, A2, val('a', 'b'))],
+                loops={'for (i, q) in enumerate(theta)': dict(inv=[done_rows]), second: dict(inv=[done_rows, done_row])})
+
+
+def constants_obj():
+    d = {'__class__': 'pygyro/model/constants.py::Constants'}
+    for k in ('eps', 'CN0', 'kN0', 'deltaRN0', 'rp', 'CTi', 'kTi', 'deltaRTi', 'deltaR', 'R0'):
+        d[k] = 'float'
+    d['m'] = 'int'
+    d['n'] = 'int'
+    return d
+
+
+def init_contract(kind):
+    order = {'flux': (0, 3, 1, 2), 'pol': (3, 2, 1, 0), 'vpar': (0, 2, 1, 3)}[kind]
+    name = {'flux': 'flux_surface', 'pol': 'poloidal', 'vpar': 'v_parallel'}[kind]
+    req = grid_invariant('grid', order)
+    req += ['grid._layout._starts[2] == 0 and grid._layout._ends[2] == grid._nGlobalCoords[%d]' % order[2],
+            'grid._layout._starts[3] == 0 and grid._layout._ends[3] == grid._nGlobalCoords[%d]' % order[3]]
+    # global coordinate of local index x on layout axis k
+    def g(k, x):
+        return 'grid._Vals[%d][grid._layout._starts[%d] + %s]' % (order[k], k, x)
+    idx = ['a0', 'a1', 'a2', 'a3']
+    co = {}
+    for k in range(4):
+        co[order[k]] = g(k, idx[k])
+    val = initf(co[0], co[1], co[2], co[3], ti='CTi, kTi, deltaRTi', pre='constants.')
+    n = ['shape(grid._f)[%d]' % k for k in range(4)]
+    outer = 'forall(0, i, 0, %s, 0, %s, 0, %s, lambda a0, a1, a2, a3: grid._f[a0, a1, a2, a3] == %s)' % (n[1], n[2], n[3], val)
+    inner = 'forall(0, j, 0, %s, 0, %s, lambda a1, a2, a3: grid._f[i, a1, a2, a3] == %s)' % (n[2], n[3], val.replace('a0', 'i'))
+    l1 = {'flux': 'for (i, r) in grid.getCoords(0)', 'pol': 'for (i, v) in grid.getCoords(0)', 'vpar': 'for (i, r) in grid.getCoords(0)'}[kind]
+    l2 = {'flux': 'for (j, v) in grid.getCoords(1)', 'pol': 'for (j, z) in grid.getCoords(1)', 'vpar': 'for (j, z) in grid.getCoords(1)'}[kind]
+    fn = {'flux': 'initialise_flux_surface', 'pol': 'initialise_poloidal', 'vpar': 'initialise_v_parallel'}[kind]
+    C = {FI + '::f_eq': dict(pure=True, returns='float', requires=[], ensures=[], modifies=[]),
+         FI + '::perturbation': dict(pure=True, returns='float', requires=[], ensures=[], modifies=[]),
+         FI + '::init_f_' + kind: kernel_contract(kind),
+         IN + '::' + fn: dict(params={'grid': grid_obj(order, name), 'constants': constants_obj()}, requires=req,
+                              modifies=['grid._f'],
+                              ensures=['forall(0, %s, 0, %s, 0, %s, 0, %s, lambda a0, a1, a2, a3: grid._f[a0, a1, a2, a3] == %s)'
+                                       % (n[0], n[1], n[2], n[3], val)],
+                              loops={l1: dict(inv=[outer]), l2: dict(inv=[outer, inner])})}
+    return C, IN + '::' + fn
+
+
+_old_cases = cases
+
+
+def cases(tier, rng=None):
+    out = _old_cases(tier, rng)
+    for kind in ('flux', 'pol', 'vpar'):
+        C, key = init_contract(kind)
+        out.append(dict(label='init_f_%s kernel' % kind, struct=None, key=FI + '::init_f_' + kind, contracts=C))
+        out.append(dict(label=key.split('::')[1], struct=None, key=key, contracts=C))
+    return out
